@@ -37,6 +37,7 @@ type Node struct {
 	Msg     string  `json:"msg,omitempty"`
 	Cond    string  `json:"cond,omitempty"` // true | false | eq:<loopID>:<k>
 	Var     bool    `json:"var,omitempty"`
+	Shared  bool    `json:"shared,omitempty"` // the catch variable is called `e`, like an outer variable and like enclosing catch variables
 	Body    []*Node `json:"body,omitempty"`
 	Catch   []*Node `json:"catch,omitempty"`
 	Finally []*Node `json:"finally,omitempty"`
@@ -90,12 +91,16 @@ func render(n *Node) string {
 		return "func() {\n" + renderList(n.Body) + "\n}()"
 	case "try":
 		s := "try {\n" + renderList(n.Body) + "\n} catch"
+		ev := "e" + id
+		if n.Shared {
+			ev = "e"
+		}
 		if n.Var {
-			s += " e" + id
+			s += " " + ev
 		}
 		s += " {\n"
 		if n.Var {
-			s += "pv(" + id + ", e" + id + ")\n"
+			s += "pv(" + id + ", " + ev + ")\n"
 		}
 		s += renderList(n.Catch) + "\n}"
 		if n.HasFin {
@@ -161,6 +166,11 @@ func render(n *Node) string {
 		return "break"
 	case "continue":
 		return "continue"
+	case "show-e":
+		return "pv(" + id + ", e)"
+	case "defer-loopvar":
+		id2 := strconv.Itoa(n.N)
+		return "func ga" + id + "(x) { pv(" + id + ", x) }\nfunc gb" + id + "(x) { pv(" + id2 + ", x) }\nfor c" + id + " in [ga" + id + ", gb" + id + "] { defer c" + id + "(" + strconv.Itoa(n.Val) + ") }"
 	case "retvar":
 		v := strconv.Itoa(n.Val)
 		return "func f" + id + "() {\nr" + id + " = " + v + "\ndefer func() { r" + id + " = " + v + " + 1; return 7 }()\nreturn r" + id + "\n}\npv(" + id + ", f" + id + "())"
@@ -211,7 +221,7 @@ func render(n *Node) string {
 }
 
 func Render(w *Work) string {
-	s := renderList(w.Prog)
+	s := "e = 777\n" + renderList(w.Prog)
 	if w.Tail != 0 {
 		s += "\n" + strconv.Itoa(w.Tail)
 	}
@@ -253,6 +263,7 @@ type model struct {
 	ambiguousCF bool // the run passed through the unspecified point "control flow leaving a try body"
 	loopIdx     map[int]int
 	catchMsg    map[int]string
+	sharedE     []string // values of the variable `e`, innermost last (bottom: the top-level binding)
 	fired       map[string]int
 }
 
@@ -346,15 +357,22 @@ func (m *model) exec(n *Node, fr *frame) sig {
 		if s.kind == 1 {
 			m.catchMsg[n.ID] = s.msg
 			var sc sig
+			mm := s.msg
+			if mm == anyMsg {
+				mm = "*"
+			}
+			if n.Var && n.Shared {
+				// a fresh binding of `e` in the try's own scope: enclosing bindings are untouched
+				m.sharedE = append(m.sharedE, mm)
+			}
 			if n.Var {
-				mm := s.msg
-				if mm == anyMsg {
-					mm = "*"
-				}
 				sc = m.host("v:" + id + ":" + mm)
 			}
 			if sc.kind == 0 {
 				sc = m.list(n.Catch, fr)
+			}
+			if n.Var && n.Shared {
+				m.sharedE = m.sharedE[:len(m.sharedE)-1]
 			}
 			if sc.kind != 0 {
 				if n.HasFin {
@@ -371,11 +389,17 @@ func (m *model) exec(n *Node, fr *frame) sig {
 			if m.pol.ctrlToCatch {
 				m.catchMsg[n.ID] = anyMsg
 				var sc sig
+				if n.Var && n.Shared {
+					m.sharedE = append(m.sharedE, "*")
+				}
 				if n.Var {
 					sc = m.host("v:" + id + ":*")
 				}
 				if sc.kind == 0 {
 					sc = m.list(n.Catch, fr)
+				}
+				if n.Var && n.Shared {
+					m.sharedE = m.sharedE[:len(m.sharedE)-1]
 				}
 				if sc.kind != 0 {
 					if n.HasFin {
@@ -462,6 +486,17 @@ func (m *model) exec(n *Node, fr *frame) sig {
 		return sig{kind: 3}
 	case "continue":
 		return sig{kind: 4}
+	case "show-e":
+		return m.host("v:" + id + ":" + m.sharedE[len(m.sharedE)-1])
+	case "defer-loopvar":
+		v, id2 := strconv.Itoa(n.Val), strconv.Itoa(n.N)
+		fr.defers = append(fr.defers, func() sig {
+			return m.call(func(f *frame) sig { return m.host("v:" + id + ":" + v) })
+		})
+		fr.defers = append(fr.defers, func() sig {
+			return m.call(func(f *frame) sig { return m.host("v:" + id2 + ":" + v) })
+		})
+		return sig{}
 	case "retvar":
 		// deferred calls do not alter the invocation's result: the value was fixed by `return`
 		return m.host("v:" + id + ":" + strconv.Itoa(n.Val))
@@ -505,7 +540,7 @@ type outcome struct {
 }
 
 func runModel(w *Work, faults map[int]string, pol policy) outcome {
-	m := &model{faults: faults, pol: pol, loopIdx: map[int]int{}, catchMsg: map[int]string{}, fired: map[string]int{}}
+	m := &model{faults: faults, pol: pol, sharedE: []string{"777"}, loopIdx: map[int]int{}, catchMsg: map[int]string{}, fired: map[string]int{}}
 	r := m.call(func(f *frame) sig {
 		s := m.list(w.Prog, f)
 		if s.kind == 0 && w.Tail != 0 {
@@ -554,6 +589,7 @@ type gctx struct {
 	noBrk     bool  // a try body lies between here and the nearest loop
 	catchVars []int // try ids whose catch variable is in scope
 	quirk     bool  // inside a try body from which control flow may leave
+	showE     bool  // `e` resolves lexically without crossing a function boundary
 }
 
 func (g *gen) id() int { g.nextID++; return g.nextID }
@@ -597,7 +633,10 @@ func (g *gen) stmt(c gctx) *Node {
 			}
 			n.Body = g.stmts(bc, 4)
 			cc := inner
-			if n.Var {
+			if n.Var && c.showE && g.r.Intn(3) == 0 {
+				n.Shared = true
+			}
+			if n.Var && !n.Shared {
 				cc.catchVars = append(append([]int{}, c.catchVars...), id)
 			}
 			if n.HasFin {
@@ -606,11 +645,18 @@ func (g *gen) stmt(c gctx) *Node {
 			}
 			n.Catch = g.stmts(cc, 3)
 			if n.HasFin {
-				n.Finally = g.stmts(inner, 3)
+				fc := inner
+				if n.Shared {
+					// whether the catch variable is still visible in `finally` is not specified: do not look
+					fc.showE = false
+				}
+				n.Finally = g.stmts(fc, 3)
 			}
 			return n
 		case k == 8:
 			return &Node{K: "defer-probe", ID: id}
+		case k == 9 && g.r.Intn(3) == 0:
+			return &Node{K: "defer-loopvar", ID: id, N: g.id(), Val: 100 + g.r.Intn(800)}
 		case k == 9:
 			return &Node{K: "defer-arg", ID: id, Val: 100 + g.r.Intn(800)}
 		case k == 10 && !leaf:
@@ -642,6 +688,9 @@ func (g *gen) stmt(c gctx) *Node {
 			return &Node{K: "ret", ID: id, Val: 10 + g.r.Intn(80)}
 		case k == 15 && g.r.Intn(4) == 0:
 			return &Node{K: "retvar", ID: id, Val: 10 + g.r.Intn(80)}
+		case k == 15 && c.showE && g.r.Intn(3) == 0:
+			return &Node{K: "show-e", ID: id}
+
 		case k == 15:
 			return &Node{K: "throw", ID: id, Msg: "t" + strconv.Itoa(id)}
 		case k == 16:
@@ -682,7 +731,7 @@ func (Prop) ID() string { return "C09" }
 func (Prop) Gen(seed int64, tier string) *harness.Case {
 	r := harness.Rand(seed)
 	g := &gen{r: r, budget: 8 + r.Intn(40)}
-	w := Work{Prog: g.stmts(gctx{inFunc: true}, 5)} // `return` is legal at top level too
+	w := Work{Prog: g.stmts(gctx{inFunc: true, showE: true}, 5)} // `return` is legal at top level too
 	if r.Intn(2) == 0 {
 		w.Tail = 1 + r.Intn(98)
 	}
@@ -880,10 +929,17 @@ func valid(w *Work) bool {
 			case "try":
 				bc := c // control flow may leave a try body: the oracle accepts both readings
 				cc := c
-				if n.Var {
+				if n.Shared && (!n.Var || !c.showE) {
+					return false
+				}
+				if n.Var && !n.Shared {
 					cc.catchVars = append(append([]int{}, c.catchVars...), n.ID)
 				}
-				if !chk(n.Body, bc) || !chk(n.Catch, cc) || !chk(n.Finally, c) {
+				fc := c
+				if n.Shared {
+					fc.showE = false
+				}
+				if !chk(n.Body, bc) || !chk(n.Catch, cc) || !chk(n.Finally, fc) {
 					return false
 				}
 			case "loop", "forin":
@@ -910,6 +966,10 @@ func valid(w *Work) bool {
 				if !chk(n.Body, c) || !chk(n.Else, c) {
 					return false
 				}
+			case "show-e":
+				if !c.showE {
+					return false
+				}
 			case "ret":
 				if !c.inFunc || c.noRet {
 					return false
@@ -932,7 +992,7 @@ func valid(w *Work) bool {
 		}
 		return true
 	}
-	return chk(w.Prog, gctx{inFunc: true})
+	return chk(w.Prog, gctx{inFunc: true, showE: true})
 }
 
 func (Prop) Shrink(c *harness.Case) []*harness.Case {
